@@ -105,9 +105,14 @@ def run(prog, world, sem, rep):
                     ks.append("withdrawals" if wd else "?")
             kinds.append(ks)
         tails = [[k for k in ks if k not in ("airdrop-hook",)] for ks in kinds]
-        ok = bool(tails) and all(t == ["withdrawals", "SwapToRewardDenom->dispatcher", "DispatchRewards->dispatcher"] for t in tails)
+        FULL = ["withdrawals", "SwapToRewardDenom->dispatcher", "DispatchRewards->dispatcher"]
+        ok = bool(tails) and all(t == FULL for t in tails)
+        if not ok and tails and any(t == FULL for t in tails) and all(t in (FULL, FULL[1:]) for t in tails):
+            # the withdrawals are pushed by a loop written in the handler itself: the sequence without them is the loop's zero-iteration
+            # alternative (no delegation) - provided the loop over the delegations is entered on every success path
+            ok = "loop"
         det = "message sequences %s" % kinds
-    rep.ob("C19.a", "withdrawals, then swap, then dispatch on every path", ok, det, where(h.body))
+    seq_ok, seq_det = ok, det
     wd = [(v, bb, e) for (v, bb, i, e) in message_effects(sem, vs) if e.info[0].endswith("DistributionMsg") and e.info[1] == "WithdrawDelegatorReward"]
     okw = len(wd) == 1
     det = "WithdrawDelegatorReward constructions: %d" % len(wd)
@@ -135,14 +140,22 @@ def run(prog, world, sem, rep):
             if blk.term.kind == "switch" and blk.idx in be.cfg.live:
                 for succ, fl in sem.edge_facts(be, blk.idx).items():
                     for f in fl:
-                        if f[0] == "variant" and f[2] == "Some" and f[1].op == "call" and f[1].info.endswith("Iterator::next"):
+                        if f[0] == "variant" and f[2] == "Some" and f[1].op == "call" and f[1].info.endswith("Iterator::next") and \
+                                find(world.norm(v.resolve(f[1].args[0]), 0, False), lambda y: y.op == "call" and y.info.endswith("query_all_delegations")):
                             heads.append((blk.idx, succ))
+        if heads is not None and seq_ok == "loop":
+            from ..callgraph import always_passes
+            root = [x for x in vs if x.parent is None][0]
+            entered = bool(heads) and all(always_passes(sem, v, hb, lambda f, resolve: False, root)[0] for (hb, _s) in heads)
+            seq_ok = entered
+            seq_det += "; the loop over the delegations is entered on every success path: %s" % entered
         if heads is not None:
             skip = any(hb in be.cfg.reach([succ], stop={bb}) for (hb, succ) in heads)
             okw = okw and bool(heads) and not skip
             det = "validator %s; one message per delegation: %s" % (show(val, 3), bool(heads) and not skip)
     if not (okw and len(wd) == 1 and wd[0][0].body.kind == "closure" and "iterator form" in det):
         rep.ob("C19.a", "one withdrawal per delegation of the hub", okw, det, where(h.body))
+    rep.ob("C19.a", "withdrawals, then swap, then dispatch on every path", seq_ok is True, seq_det, where(h.body))
     tgt_ok = True
     n_d = 0
     for (v, bb, i, e) in message_effects(sem, vs):
